@@ -238,6 +238,93 @@ def soft_sign_tabulated(repo: Repo, ci: ClassInfo, fi: FuncInfo):
     return done(OK, f"tabulated at every constellation point for orders {orders} and both labelings ({count} LLRs): positive <=> the point's label bit is 0")
 
 
+def modulator_tables(repo: Repo, ci: ClassInfo, M_: int, gray: bool):
+    """(points, label rows) of the modulator paired with demodulator class ci, from evaluating its table constructor."""
+    from ..constfold import Unfoldable
+    from ..frag import FragRaise, FragReturn, run_fragment
+
+    mc = ci.module.classes.get(ci.name.replace("Demodulator", "Modulator"))
+    cc = mc.find_method("_create_constellation") if mc is not None else None
+    if cc is None:
+        raise Unfoldable("no paired modulator with a table constructor")
+    funcs_m = {nm: f_.node for nm, f_ in ci.module.functions.items()}
+    for mi_ in repo.modules.values():
+        if mi_.relpath == "kaira/modulations/utils.py":
+            funcs_m.update({nm: f_.node for nm, f_ in mi_.functions.items()})
+    b = M_.bit_length() - 1
+    mat = {"self.order": M_, "self._bits_per_symbol": b, "self.bits_per_symbol": b, "self.gray_coding": gray, "self.normalize": False}
+    if "QAM" in ci.name:
+        mat["self._k"] = int(round(M_ ** 0.5))
+    try:
+        env = run_fragment(cc.body, {}, mat, max_steps=3000000, materialise=True, funcs=funcs_m)
+    except (FragRaise, FragReturn, TypeError, ValueError, IndexError) as exc:
+        raise Unfoldable(f"modulator tables for order {M_}: {exc}")
+    pts, bp, lv = env.get("constellation"), env.get("bit_patterns"), env.get("levels")
+    if not isinstance(pts, list) and isinstance(lv, list):
+        pts = [complex(x, 0.0) for x in lv]
+    if not (isinstance(pts, list) and len(pts) == M_ and all(isinstance(z, (int, float, complex)) for z in pts) and isinstance(bp, list) and len(bp) == M_ and all(isinstance(r_, list) and len(r_) == b for r_ in bp)):
+        raise Unfoldable(f"modulator tables for order {M_} have an unexpected form")
+    return [complex(z) for z in pts], bp
+
+
+_HARD_TAB_CACHE: Dict[tuple, tuple] = {}
+
+
+def hard_nearest_tabulated(repo: Repo, ci: ClassInfo, fi: FuncInfo):
+    """Finite tabulation of the hard branch of a table-driven demodulator whose search the rules do not recognise: evaluated
+    (own arithmetic) at every constellation point and at four points displaced by 0.3 d_min around it, for the small
+    orders, both labelings; the returned bits must be the label of the nearest constellation point.  For the largest
+    order only the constellation points themselves are used.  Returns (OK | VIOLATION, detail) or (None, reason)."""
+    key = (repo.root, ci.file, ci.name)
+    if key in _HARD_TAB_CACHE:
+        return _HARD_TAB_CACHE[key]
+    from ..constfold import PySeq, Unfoldable
+    from ..frag import FragRaise, FragReturn, run_fragment
+
+    def done(st, d):
+        _HARD_TAB_CACHE[key] = (st, d)
+        return st, d
+
+    funcs_d = {nm: f_.node for nm, f_ in ci.module.functions.items()}
+    funcs_d.update({f"self.{nm}": f_.node for nm, f_ in ci.methods.items() if nm not in ("forward", "__init__")})
+    square = "QAM" in ci.name
+    orders = (4, 16, 64, 256) if square else (2, 4, 8, 16, 32)
+    count = 0
+    try:
+        for gray in (True, False):
+            for M_ in orders:
+                if M_ == orders[-1] and not gray:
+                    continue
+                b = M_.bit_length() - 1
+                pts, bp = modulator_tables(repo, ci, M_, gray)
+                dmin = min(abs(p_ - q_) for i_, p_ in enumerate(pts) for q_ in pts[i_ + 1:]) if M_ > 1 else 1.0
+                ys = list(pts)
+                if M_ != orders[-1]:
+                    for p_ in pts:
+                        ys += [p_ + 0.3 * dmin * d_ for d_ in (1, -1, 1j, -1j)]
+                attrs = {"self.modulator.constellation": pts, "self.modulator.bit_patterns": bp, "self.modulator.levels": [z.real for z in pts], "self.constellation": pts, "self.bit_patterns": bp, "self._bits_per_symbol": b, "self.bits_per_symbol": b, "self.order": M_, "self.gray_coding": gray, "self.normalize": False}
+                try:
+                    run_fragment(fi.body, {"y": list(ys), "noise_var": None, "args": PySeq([]), "kwargs": {}}, attrs, funcs=funcs_d, materialise=True, max_steps=8000000)
+                    return done(None, "no value returned")
+                except FragReturn as ret:
+                    out = ret.value
+                except (FragRaise, TypeError, ValueError, IndexError, ZeroDivisionError) as exc:
+                    return done(None, f"hard branch not evaluable for order {M_} ({exc})")
+                if not (isinstance(out, list) and len(out) == len(ys) * b and all(isinstance(x, (int, float)) and not isinstance(x, bool) for x in out)):
+                    return done(None, f"hard output for order {M_} is not {len(ys) * b} numbers")
+                for t, y_ in enumerate(ys):
+                    dists = [abs(y_ - p_) for p_ in pts]
+                    near = dists.index(min(dists))
+                    got = [int(x) for x in out[t * b:(t + 1) * b]]
+                    want = [int(x) for x in bp[near]]
+                    if got != want:
+                        return done(VIOLATION, f"order {M_}, gray_coding={gray}: the received value {y_} is nearest to point {near} = {pts[near]} (label {want}); the hard decision returns {got}")
+                    count += 1
+    except Unfoldable as exc:
+        return done(None, str(exc))
+    return done(OK, f"tabulated for orders {orders} (both labelings): at {count} received values (constellation points and points displaced by 0.3 d_min) the decision is the label of the nearest point")
+
+
 def decide_producer(repo, rep, ci, fi, v: PV, r: ast.Return, interp: Polarity) -> int:
     construct = f"soft branch: {unparse(r)}"
     trace = [f"abstract value of the returned LLR: {v.show()}"] + [f"idiom: {x}" for x in interp.idioms[:4]]
